@@ -165,7 +165,7 @@ def run(ctx):
     ctx.coq_props()
     rng = ctx.rng
     quick = ctx.tier == "quick"
-    n, n_num = (500, 60) if quick else (6000, 600)
+    n, n_num = (1200, 120) if quick else (8000, 800)
     cases = [dict(c) for c in CORPUS]
     rp = getattr(ctx, "replay", None)
     if rp and isinstance(rp.get("replay"), dict) and isinstance(rp["replay"].get("case"), dict):
